@@ -503,6 +503,9 @@ def _norm_name(n):
     return n
 
 
+_LOCAL_INIT = {}       # const locals of the function being analysed (decl id -> initialiser), set by _check_struct_mirrors
+
+
 def _side_names(e, cparam_id):
     """(C-side field accesses [(name, index exprs, role)], C++-side names [(name, index exprs)]) in e"""
     from .render import Renderer
@@ -520,6 +523,10 @@ def _side_names(e, cparam_id):
         if n is None:
             continue
         k = n.get("k")
+        if k == "DeclRefExpr" and n.get("rk") == "Var" and n.get("id") in _LOCAL_INIT:
+            # a const local holding one element (e.g. `const std::complex<double> ckm_ik = def.get_ckm(i, k)`)
+            stack.append((_LOCAL_INIT[n["id"]], subs, role))
+            continue
         if k == "ArraySubscriptExpr":
             stack.append((n["c"][0], [Rr.r(n["c"][1])] + subs, role))
             for x in walk(n["c"][1]):
@@ -579,6 +586,10 @@ def _check_struct_mirrors(F, R):
                 R.broken("X5m: C struct %s not found" % sname)
             fields = [fl["name"] for fl in rec["fields"]]
             covered = set()
+            from .render import Renderer as _Rnd
+            _LOCAL_INIT.clear()
+            _LOCAL_INIT.update({i: v for i, v in _Rnd(f).local_init.items()
+                                if strip_all(v) is not None and is_call(strip_all(v))})
             # local aliases: a C++ local filled element-wise then handed to a setter (ckm)
             for n in walk(f["body"]):
                 is_asg = n.get("k") == "BinaryOperator" and n.get("op") == "="
